@@ -130,3 +130,69 @@ func VerifC24Streaming() {
 	vrt.Assert(same, "exactly the streamed bytes reach the rest of the pipeline")
 	vrt.Reach("stored")
 }
+
+type c24store struct{ puts int }
+
+func (s *c24store) Put(context.Context, *object.Object, []byte) error   { s.puts++; return nil }
+func (s *c24store) IsLocked(context.Context, oid.Address) (bool, error) { return false, nil }
+
+type c24max struct{ v uint64 }
+
+func (m c24max) MaxObjectSize() uint64 { return m.v }
+
+// VerifC24Replicated: an object received whole (replication): it is stored
+// only if it names a container, carries a SHA-256 checksum, its payload has the
+// declared length (within the network limit) and hashes to the declared
+// checksum, and its header and content passed validation. Payload of 0..4
+// symbolic bytes, symbolic declared length, checksum and limit.
+func VerifC24Replicated() {
+	l := vrt.Choice("payloadLength", 5)
+	payload := vrt.Bytes("payload", l)
+	declared := uint64(vrt.IntRange("declaredPayloadLength", 0, 6))
+	var cs [32]byte
+	copy(cs[:], vrt.Bytes("declaredChecksum", 32))
+	formatOK, contentOK := vrt.Bool("headerPassesFormatValidation"), vrt.Bool("contentPassesValidation")
+	objectcore.VerifHookValidate = func(*object.Object, bool) error {
+		if !formatOK {
+			return errors.New("invalid header")
+		}
+		return nil
+	}
+	objectcore.VerifHookValidateContent = func(*object.Object) error {
+		if !contentOK {
+			return errors.New("invalid content")
+		}
+		return nil
+	}
+	st := new(c24store)
+	limit := uint64(vrt.IntRange("networkSizeLimit", 0, 6))
+	p := &Service{cfg: &cfg{maxSizeSrc: c24max{limit}, localStore: st, fmtValidator: new(objectcore.FormatValidator)}}
+	var obj object.Object
+	withCnr := vrt.Bool("containerSet")
+	if withCnr {
+		obj.SetContainerID(cid.ID{1})
+	}
+	obj.SetOwner(user.ID{0x35, 1})
+	obj.SetPayloadSize(declared)
+	csKind := vrt.Choice("checksumKind", 3) // 0 none, 1 SHA-256, 2 Tillich-Zemor
+	switch csKind {
+	case 1:
+		obj.SetPayloadChecksum(checksum.NewSHA256(cs))
+	case 2:
+		obj.SetPayloadChecksum(checksum.New(checksum.TillichZemor, make([]byte, 64)))
+	}
+	obj.SetPayload(payload)
+	err := p.ValidateAndStoreObjectLocally(context.Background(), obj)
+	if err != nil {
+		vrt.Assert(st.puts == 0, "a refused object is not stored")
+		vrt.Reach("refused")
+		return
+	}
+	vrt.Assert(st.puts == 1, "an accepted object is stored once")
+	vrt.Assert(withCnr && csKind == 1, "an object without container or SHA-256 checksum is never stored")
+	vrt.Assert(declared == uint64(l) && declared <= limit && limit != 0, "an object is stored only if its payload has the declared length within the network limit")
+	want := sha256.Sum256(payload)
+	vrt.Assert(cs == want, "an object is stored only if its payload matches the declared checksum")
+	vrt.Assert(formatOK && contentOK, "an object is stored only if header and content passed validation")
+	vrt.Reach("stored")
+}
